@@ -9,7 +9,7 @@ P("C40",
             "engine, witness interleavings elsewhere; real monitor endpoints hammered over HTTP while the engine runs, in a race-instrumented "
             "subprocess whose race log is parsed into per-endpoint verdicts; outcome equality with an unmonitored run",
   level_text="c40_inspection_safe_parallel: for every handler program, every sequence of pause/continue/state/now/tick/component+field "
-             "inspection/buffers requests and EVERY interleaving, the parallel engine has no racy reachable state; c40_basic_requests_safe: pause/continue/state/buffers are race-free on both engines for every interleaving. Witnesses: c40_now_races, "
+             "inspection/buffers requests and EVERY interleaving, the parallel engine has no racy reachable state; c40_basic_requests_safe: pause/continue/state/buffers are race-free on both engines for every interleaving. c40_inspection_needs_control_mutex_refuted: if /api/continue can interleave with a (user-paused) inspection — engineControlMu not held across it — a racy state is reachable on both engines; the lock-scope fact the model relies on is re-extracted from monitoring2/monitor.go (go/ast) on every run and compared in check_case, and a directed held-inspection history (user pause, engine observed idle, inspection held open by a client that stops reading, concurrent /api/continue) observes deterministically whether events are handled while the inspection is in progress. Witnesses: c40_now_races, "
              "c40_tick_races, c40_serial_inspection_races (serial engine), c40_progress_races (both engines) — all confirmed by the race "
              "detector on the real code (known findings, one classifier per endpoint).",
   level_note="partial: the engine is modelled with one handler at a time (round-internal parallelism is C04); lock sets are assigned to "
